@@ -54,6 +54,9 @@ type NetTx struct {
 	Op      Op    `json:"op"`
 	Targets uint8 `json:"targets"` // bitmask of nodes that receive it directly
 	Defect  int   `json:"defect,omitempty"`
+	// Stateful: a valid transfer co-signed by an inline verification script that checks a signature and that the chain
+	// is still below a height two blocks ahead: valid now, invalid once that height is reached
+	Stateful bool `json:"stateful,omitempty"`
 }
 
 // NetPlan is one network run.
@@ -181,6 +184,8 @@ func drawNet(rt *rapid.T, p *Plan, prop, tier string) *Plan {
 		for i := 0; i < 5; i++ {
 			np.Txs = append(np.Txs, NetTx{AtMS: at + 1, Op: Op{Kind: OpTransferGAS, A: i, B: (i + 1) % numAccounts, N: int64(1 + i), X: 1}, Targets: 31})
 		}
+		// and one whose witness is valid for two more blocks only (it pays least per byte, so it waits longest)
+		np.Txs = append(np.Txs, NetTx{AtMS: at + 2, Op: Op{Kind: OpTransferGAS, A: 5, B: 0, N: 9, X: 1}, Targets: 31, Stateful: true})
 	}
 	sort.SliceStable(np.Txs, func(i, j int) bool { return np.Txs[i].AtMS < np.Txs[j].AtMS })
 	if np.Observers > 0 && rapid.IntRange(0, 2).Draw(rt, "obsrestart") == 0 {
